@@ -161,3 +161,87 @@ pub fn clamp_sweep(step: u64) {
     }
     println!("{}", json!({"patterns": n, "bad": bad, "classes_nan_neg_high_inrange": classes, "first": first}));
 }
+
+/// Comparator rule at f32 resolution (below the millivolt grid of Board.tla): after any order of "write DAC byte" and
+/// "apply input", the comparator bit equals `reported input > reported DAC voltage` - both sides as the board reports them
+/// (the DAC voltage itself is checked against byte / 100 on the grid by the specification).  Inputs are the f32 neighbours
+/// of every DAC voltage (0, +-1, +-2 ulp), k/100 spelled as a decimal literal would be, and a few values far away.
+pub fn comp_sweep() {
+    use emulator_2a_lib::machine::{Machine, MachineConfig};
+    fn ulps(v: f32, d: i32) -> f32 {
+        let b = v.to_bits() as i64 + d as i64;
+        if b < 0 {
+            -0.0
+        } else {
+            f32::from_bits(b as u32)
+        }
+    }
+    let (mut n, mut bad, mut panics) = (0u64, 0u64, 0u64);
+    let mut first: Vec<Value> = vec![];
+    for which in 0..3u8 {
+        // 0: input 1 vs DAC1, 1: input 2 vs DAC2, 2: temperature vs DAC2
+        for byte in 0..=255u8 {
+            let dac = byte as f32 / 100.0;
+            let lit: f32 = format!("{}.{:02}", byte / 100, byte % 100).parse().unwrap();
+            let mut inputs = vec![lit, (byte as f32) * 0.01, 0.0, 5.0, 2.5, f32::NAN, f32::INFINITY, -1.0];
+            for d in -3..=3 {
+                inputs.push(ulps(dac, d));
+                inputs.push(ulps(lit, d));
+            }
+            for x in inputs {
+                for order in 0..3u8 {
+                    // order 0: DAC then input; 1: input then DAC; 2: input, DAC, same DAC byte again
+                    let r = catch_unwind(AssertUnwindSafe(|| {
+                        let mut m = Machine::new(MachineConfig::default());
+                        let set = |m: &mut Machine| match which {
+                            0 => m.set_analog_input1(x),
+                            1 => m.set_analog_input2(x),
+                            _ => m.set_temp(x),
+                        };
+                        let port = if which == 0 { 0xF0 } else { 0xF1 };
+                        if order == 0 {
+                            m.raw_mut().bus_mut().write(port, byte);
+                            set(&mut m);
+                        } else {
+                            // start from the opposite comparator level so that the bit has to move
+                            m.raw_mut().bus_mut().write(port, if byte < 128 { 255 } else { 0 });
+                            set(&mut m);
+                            m.raw_mut().bus_mut().write(port, byte);
+                            if order == 2 {
+                                m.raw_mut().bus_mut().write(port, byte);
+                            }
+                        }
+                        let b = m.bus().board();
+                        let (inp, out, bit) = match which {
+                            0 => (b.analog_inputs()[0], b.analog_outputs()[0], b.dasr().bits() & 0b0000_1000 != 0),
+                            1 => (b.analog_inputs()[1].max(*b.temp()), b.analog_outputs()[1], b.dasr().bits() & 0b0001_0000 != 0),
+                            _ => (b.analog_inputs()[1].max(*b.temp()), b.analog_outputs()[1], b.dasr().bits() & 0b0001_0000 != 0),
+                        };
+                        let rd = m.bus().read(0xF1);
+                        (inp, out, bit, rd == b.dasr().bits())
+                    }));
+                    n += 1;
+                    match r {
+                        Ok((inp, out, bit, rd_ok)) => {
+                            if bit != (inp > out) || !rd_ok || out.to_bits() != dac.to_bits() {
+                                bad += 1;
+                                if first.len() < 10 {
+                                    first.push(json!({"which": which, "byte": byte, "input_bits": x.to_bits(), "order": order,
+                                        "stored_input_bits": inp.to_bits(), "dac_bits": out.to_bits(), "comparator": bit, "expected": inp > out}));
+                                }
+                            }
+                        }
+                        Err(_) => {
+                            panics += 1;
+                            bad += 1;
+                            if first.len() < 10 {
+                                first.push(json!({"which": which, "byte": byte, "input_bits": x.to_bits(), "order": order, "panic": true}));
+                            }
+                        }
+                    }
+                }
+            }
+        }
+    }
+    println!("{}", json!({"cases": n, "bad": bad, "panics": panics, "first": first}));
+}
